@@ -991,6 +991,23 @@ class Emitter:
                     size = ch
                     break
             return '((%s)__verif_new_array(sizeof(%s), %s))' % (c, elem, self.expr(size, ctx))
+        ctor = [ch for ch in n.get('inner', []) if ch.get('kind') == 'CXXConstructExpr']
+        if ctor and not self.T.is_scalar(elem) and elem not in ('mpz_t', '__mpz_struct'):
+            # new Class(args): allocation + constructor, provided as Class__new_k by the group (malloc + extracted ctor)
+            args = [a for a in ctor[0].get('inner', []) if a.get('kind') != 'CXXDefaultArgExpr']
+            al = [self.arg(a, ctx) for a in args]
+            cn = '%s__new_%d' % (elem, len(al))
+            self.fire('E5_new_object')
+            call = '%s(%s)' % (cn, ', '.join(al))
+            if cn in self.may_throw:
+                self.uses_thrown = True
+                if not ctx.allow_hoist:
+                    raise ExtractionError('%s: throwing constructor in a non-hoistable position' % self.cname)
+                t = self.tmp()
+                ctx.pre.append('%s %s = %s;' % (c, t, call))
+                ctx.pre.append('if (__tmcg_thrown) %s' % self.zero_ret())
+                return t
+            return call
         return '((%s)__verif_new(sizeof(%s)))' % (c, elem)
 
     def x_CXXDeleteExpr(self, n, ctx):
